@@ -95,3 +95,167 @@ def gen_batch(env, tag, arms, nmax, reward='real', nmin=1, d=0, fixed_n=None, ct
         rew = env.reals('r_%s' % tag, (n,))
     ctx = env.reals(ctx_name or ('x_%s' % tag), (n, d)) if d else None
     return dec, rew, ctx
+
+
+# ------------------------------------------------------------------------------------------------
+# policy factories with symbolic hyper-parameters
+
+CF_POLICIES = ['greedy', 'ucb1', 'softmax', 'popularity', 'thompson', 'random']
+LIN_POLICIES = ['lingreedy', 'linucb', 'lints']
+
+
+def make_lp(env, name, tag='', scale=False, binarizer=None):
+    """(LearningPolicy tuple, hyper-parameter dict); names ending in 0 / 1 fix epsilon"""
+    lp = LP()
+    t = tag
+    if name == 'greedy0':
+        return lp.EpsilonGreedy(0), dict(epsilon=0)
+    if name == 'greedy1':
+        return lp.EpsilonGreedy(1), dict(epsilon=1)
+    if name == 'greedy':
+        e = env.real('epsilon' + t, 0, 1)
+        return lp.EpsilonGreedy(e), dict(epsilon=e)
+    if name == 'ucb1':
+        a = env.real('alpha' + t, 0)
+        return lp.UCB1(a), dict(alpha=a)
+    if name == 'softmax':
+        tau = env.real('tau' + t, 0, lo_strict=True)
+        return lp.Softmax(tau), dict(tau=tau)
+    if name == 'popularity':
+        return lp.Popularity(), {}
+    if name == 'thompson':
+        return lp.ThompsonSampling(binarizer), {}
+    if name == 'random':
+        return lp.Random(), {}
+    if name == 'lingreedy0':
+        lam = env.real('l2' + t, 0, lo_strict=True)
+        return lp.LinGreedy(0, lam, scale), dict(epsilon=0, l2=lam)
+    if name == 'lingreedy':
+        e = env.real('epsilon' + t, 0, 1)
+        lam = env.real('l2' + t, 0, lo_strict=True)
+        return lp.LinGreedy(e, lam, scale), dict(epsilon=e, l2=lam)
+    if name == 'linucb':
+        a = env.real('alpha' + t, 0)
+        lam = env.real('l2' + t, 0, lo_strict=True)
+        return lp.LinUCB(a, lam, scale), dict(alpha=a, l2=lam)
+    if name == 'lints':
+        a = env.real('alpha' + t, 0, lo_strict=True)
+        lam = env.real('l2' + t, 0, lo_strict=True)
+        return lp.LinTS(a, lam, scale), dict(alpha=a, l2=lam)
+    raise ValueError(name)
+
+
+def reward_kind(lp_name):
+    if lp_name.startswith('thompson'):
+        return 'binary'
+    if lp_name == 'popularity':
+        return 'nonneg'
+    return 'real'
+
+
+def is_linear(lp_name):
+    return lp_name.startswith('lin')
+
+
+def make_np(env, name, tag='', narms=2):
+    """NeighborhoodPolicy tuple from a spec string: radius:<metric>, knearest:<k>:<metric>, lsh:<bits>:<tables>,
+    clusters:<k>[:mini], tree"""
+    npol = NP()
+    if name is None or name == 'none':
+        return None, {}
+    parts = name.split(':')
+    kind = parts[0]
+    if kind == 'radius':
+        metric = parts[1] if len(parts) > 1 else 'cityblock'
+        if metric == 'euclidean':
+            rho = env.real('rho' + tag, 0, lo_strict=True)
+            r = env.sqrt_cmp(rho)
+            env.assume(r > 0)
+        else:
+            r = env.real('radius' + tag, 0, lo_strict=True)
+        return npol.Radius(r, metric), dict(radius=r, metric=metric)
+    if kind == 'knearest':
+        k = int(parts[1]) if len(parts) > 1 else 1
+        metric = parts[2] if len(parts) > 2 else 'cityblock'
+        return npol.KNearest(k, metric), dict(k=k, metric=metric)
+    if kind == 'lsh':
+        b = int(parts[1]) if len(parts) > 1 else 1
+        t = int(parts[2]) if len(parts) > 2 else 1
+        return npol.LSHNearest(b, t), dict(bits=b, tables=t)
+    if kind == 'clusters':
+        k = int(parts[1]) if len(parts) > 1 else 2
+        mini = len(parts) > 2 and parts[2] == 'mini'
+        return npol.Clusters(k, mini), dict(k=k, mini=mini)
+    if kind == 'tree':
+        return npol.TreeBandit(), {}
+    raise ValueError(name)
+
+
+def needs_contexts(lp_name, np_name):
+    return is_linear(lp_name) or (np_name not in (None, 'none'))
+
+
+def new_mab(env, arms, lp_name, np_name=None, seed=None, tag='', n_jobs=1, scale=False, binarizer=None, hp=None):
+    """a bandit through the public constructor; hp lets two bandits share the same symbolic hyper-parameters"""
+    if hp is None:
+        lpol, h1 = make_lp(env, lp_name, tag, scale=scale, binarizer=binarizer)
+        npol, h2 = make_np(env, np_name, tag, narms=len(arms))
+        hp = dict(lp=lpol, np=npol, h=dict(h1, **h2))
+    if seed is None:
+        seed = env.integer('seed' + tag, 0, 2 ** 31 - 1)
+        hp['seed'] = seed
+    mab = MAB()(list(arms), hp['lp'], hp['np'], seed=seed, n_jobs=n_jobs)
+    return mab, hp
+
+
+def same_value(env, a, b):
+    """equality of two outputs of the same kind (number, NaN, arm label)"""
+    if isinstance(a, (str, np.str_)) or isinstance(b, (str, np.str_)):
+        return str(a) == str(b)
+    return env.eq(a, b)
+
+
+def outputs_equal(env, tag, o1, o2, kf=None):
+    """obligations: two results of predict / predict_expectations are equal term by term"""
+    if isinstance(o1, list) != isinstance(o2, list):
+        env.ob(tag + '.shape', False)
+        return
+    if isinstance(o1, list):
+        env.ob(tag + '.len', len(o1) == len(o2))
+        for i, (x, y) in enumerate(zip(o1, o2)):
+            outputs_equal(env, '%s.row%d' % (tag, i), x, y, kf)
+        return
+    if isinstance(o1, dict) != isinstance(o2, dict):
+        env.ob(tag + '.kind', False)
+        return
+    if isinstance(o1, dict):
+        env.ob(tag + '.keys', [pyval(k) for k in o1.keys()] == [pyval(k) for k in o2.keys()])
+        for k in o1:
+            if k in o2:
+                env.ob('%s[%s]' % (tag, k), same_value(env, o1[k], o2[k]), kf=kf)
+        return
+    env.ob(tag + '.arm', same_value(env, pyval(o1), pyval(o2)), kf=kf)
+
+
+def compositions(n, max_parts):
+    """all ways to cut n rows into consecutive non-empty chunks (at most max_parts)"""
+    out = []
+
+    def rec(rest, acc):
+        if rest == 0:
+            out.append(tuple(acc))
+            return
+        if len(acc) == max_parts:
+            return
+        for k in range(1, rest + 1):
+            rec(rest - k, acc + [k])
+    rec(n, [])
+    return out
+
+
+def fit_args(dec, rew, ctx):
+    return (np.asarray(dec), rew) if ctx is None else (np.asarray(dec), rew, ctx)
+
+
+def query(env, tag, m, d):
+    return env.reals('q_%s' % tag, (m, d))
